@@ -37,15 +37,16 @@ theorem C14_sync_objects : (inventory.filter (·.sync)).map (·.name) = ["key_on
 
 /-- **Task threads communicate only through an eventfd write** (tie A, regenerated on every run): the only function
 Lib/core hands to another thread is `task_thread`; everything reachable from it is the user's task function (the one
-indirect call), `poll_notify_userevent` and the `write(2)` it makes on the source's own eventfd; its only store
-through a pointer is the return value it leaves in its own source.  In particular it takes no reference, touches no
+indirect call), `poll_notify_userevent` and the `write(2)` it makes on the source's own eventfd; its only stores
+through a pointer are the return value it leaves in its own source and the atomic mark that says it is done with that source
+(D-04g: whoever drops the source waits for the mark).  In particular it takes no reference, touches no
 reference count, no map, no queue and no poll set of the context looping on the other thread. -/
 theorem C14_task_thread_footprint :
     Lm.Generated.Threads.entries.map (·.entry) = ["task_thread"] ∧
     (∀ e ∈ Lm.Generated.Threads.entries,
       (∀ f ∈ e.calls, f ∈ ["poll_notify_userevent", "write", "__errno_location"]) ∧
       e.indirect = ["task_thread: src->task_src.tid.fn"] ∧
-      e.writes = ["task_thread: src->task_src.retval"]) := by decide
+      e.writes = ["task_thread: atomic &src->task_src.state", "task_thread: src->task_src.retval"]) := by decide
 
 /-- **Independence**: for every interleaving of the lines of any number of threads, each thread's configuration and
 complete output trace are those of its own lines run alone -/
